@@ -211,10 +211,10 @@ pub fn inputs(tier: &str, seed: u64, mut f: impl FnMut(&[u8], &str)) {
     // curves (arc needs >= 1000 sub-points -> Bezier fall-back), nearly collinear triples at
     // large magnitude (ill-conditioned circumcircle: NaN / huge radius), long Beziers; alone,
     // before and after ordinary sliders, as first and as later segments, in all four modes
-    for i in 0..80 * scale {
+    for i in 0..200 * scale {
         let mode = i % 4;
         let mut lines: Vec<String> = vec!["osu file format v14".into(), "[General]".into(), format!("Mode: {}", mode), "[TimingPoints]".into(), "0,500,4,1,0,100,1,0".into(), "[HitObjects]".into()];
-        let n = r.range(1, 4);
+        let n = r.range(1, 6);
         let mut t = 1000;
         for _ in 0..n {
             let big = |r: &mut Rng| r.range(-131072, 131072);
@@ -229,7 +229,17 @@ pub fn inputs(tier: &str, seed: u64, mut f: impl FnMut(&[u8], &str)) {
                     let lead = if r.chance(1, 2) { "L|10:10|" } else { "" };
                     format!("{}P|{}:{}|{}:{}|{}:{}", lead, ax, ay, ax + s1 * dx, ay + s1 * dy, ax + s2 * dx + ex, ay + s2 * dy + ey)
                 }
-                2 => format!("P|100000:100000|100000:0"),
+                2 if r.chance(1, 2) => format!("P|100000:100000|100000:0"),
+                2 => {
+                    // three nearby points far from the slider head, as a LATER segment: the
+                    // circumcircle determinant is computed from absolute coordinates (~1e10 with
+                    // ulp ~1e3) and cancels catastrophically while the collinearity test, computed
+                    // from differences, is still clearly non-zero
+                    let sgn = |r: &mut Rng| if r.chance(1, 2) { 1 } else { -1 };
+                    let (ax, ay) = (sgn(&mut r) * r.range(50_000, 125_000), sgn(&mut r) * r.range(50_000, 125_000));
+                    let (u1, v1, u2, v2) = (r.range(-60, 60), r.range(-60, 60), r.range(-60, 60), r.range(-60, 60));
+                    format!("L|10:10|P|{}:{}|{}:{}|{}:{}", ax, ay, ax + u1, ay + v1, ax + u2, ay + v2)
+                }
                 3 => format!("B|{}:{}|{}:{}|{}:{}|{}:{}", big(&mut r), big(&mut r), big(&mut r), big(&mut r), big(&mut r), big(&mut r), big(&mut r), big(&mut r)),
                 4 => format!("B|100:100|200:0|P|{}:{}|{}:{}", big(&mut r), big(&mut r), big(&mut r), big(&mut r)),
                 _ => format!("C|{}:{}|{}:{}|{}:{}", big(&mut r), big(&mut r), big(&mut r), big(&mut r), big(&mut r), big(&mut r)),
